@@ -110,17 +110,20 @@ class JsonVsText(Harness):
         L[self.cat] = [ROWNAME]
         t = OL.run_output(M, L, patch=patch)
         j = OL.run_output(M, L, json=True, patch=patch)
-        if isinstance(t['ret'], Exc) or isinstance(j['ret'], Exc):
+        jl = [OL.run_output(M, L, json=True, patch=patch, level=lv) for lv in ('warn', 'fail')]
+        if isinstance(t['ret'], Exc) or isinstance(j['ret'], Exc) or any(isinstance(x['ret'], Exc) for x in jl):
             return {'exc': t['ret'] if isinstance(t['ret'], Exc) else j['ret']}
         ft = [(l, x) for c, h, l, x in findings(t['lines']) if c == self.cat]
-        return {'rt': t['ret'], 'rj': j['ret'], 'ft': ft, 'jn': j['doc'][self.cat][0]['notes'], 'nlines': len(j['lines'])}
+        return {'rt': t['ret'], 'rj': j['ret'], 'ft': ft, 'jn': j['doc'][self.cat][0]['notes'], 'nlines': len(j['lines']),
+                'nlines_by_level': [len(x['lines']) for x in jl], 'ret_by_level': [x['ret'] for x in jl]}
 
     def check(self, inp, obs):
         if 'exc' in obs:
             yield 'no-exception', False
             return
-        yield 'same-status', obs['rt'] == obs['rj']
+        yield 'same-status', obs['rt'] == obs['rj'] and all(r == obs['rt'] for r in obs['ret_by_level'])
         yield 'one-json-document', obs['nlines'] == 1
+        yield 'json-document-under-every-minimum-level', obs['nlines_by_level'] == [1, 1]
         jn = obs['jn']
         flat = [('fail', x) for x in jn.get('fail', [])] + [('warn', x) for x in jn.get('warn', [])]
         infos = [x for x in jn.get('info', [])]
